@@ -347,6 +347,74 @@ def same(a, b):
   return a == b
 
 
+class _MBase:
+
+  @classmethod
+  def make(cls, n=1):
+    return (cls.__name__, n)
+
+
+class _MChild(_MBase):
+  pass
+
+
+def sharing_and_callable_scenarios():
+  """Sharing that runs through holders only the serializer knows how to traverse (dict-based objects,
+  set elements, slice bounds), and callables whose name resolves to a different object."""
+  try:
+    ser.register_dict_based_object(DictBased)
+  except Exception:  # pylint: disable=broad-except
+    pass
+  out = []
+  def round_trip(name, make, shared_of):
+    x = make()
+    try:
+      text = ser.dump_json(x)
+    except Exception:  # loud: allowed  # pylint: disable=broad-except
+      return
+    try:
+      back = ser.load_json(text)
+    except Exception as e:  # pylint: disable=broad-except
+      out.append(({'clause': 'load-raises', 'scenario': name, 'observed': type(e).__name__}, f'{name}: {e}'[:200]))
+      return
+    a, b = shared_of(back)
+    if a is not b:
+      out.append(({'clause': 'sharing-lost', 'scenario': name}, f'{name}: the shared object came back as two objects'))
+  def s1():
+    sh = [1, 2]
+    return fdl.Config(H.f1, s1=sh, s2=DictBased(a=sh))
+  round_trip('list-shared-with-dict-based-attribute', s1, lambda b: (b.s1, b.s2.a))
+  def s2():
+    sh = [1, 2]
+    return [DictBased(a=sh), DictBased(b=sh)]
+  round_trip('list-shared-by-two-dict-based-objects', s2, lambda b: (b[0].a, b[1].b))
+  def s3():
+    nt = NT([1], 2)
+    return fdl.Config(H.f1, s1=nt, s2=slice(nt, None))
+  round_trip('namedtuple-shared-with-slice-bound', s3, lambda b: (b.s1, b.s2.start))
+  def s4():
+    cfg = fdl.Config(H.g4, s1=1)
+    return fdl.Config(H.f1, s1=cfg, s2=DictBased(a=[cfg]))
+  round_trip('config-shared-with-dict-based-attribute', s4, lambda b: (b.s1, b.s2.a[0]))
+  # a callable reached through a subclass: written losslessly or refused, never as another callable
+  for name, fn in (('inherited-classmethod', _MChild.make), ('own-classmethod', _MBase.make)):
+    x = fdl.Config(fn, n=2)
+    try:
+      text = ser.dump_json(x)
+    except Exception:  # loud: allowed  # pylint: disable=broad-except
+      continue
+    try:
+      back = ser.load_json(text)
+      same_build = fdl.build(back) == fdl.build(x)
+    except Exception as e:  # pylint: disable=broad-except
+      out.append(({'clause': 'load-raises', 'scenario': name, 'observed': type(e).__name__}, f'{name}: {e}'[:200]))
+      continue
+    if not same_build:
+      out.append(({'clause': 'callable-changed', 'scenario': name},
+                  f'{name}: builds {fdl.build(back)} after the round trip, {fdl.build(x)} before'))
+  return out
+
+
 def explore_leaves(rng, rounds):
   try:
     ser.register_dict_based_object(DictBased)
@@ -456,7 +524,7 @@ def main():
     for f, msg in rc:
       v.mismatch(f, {'message': msg})
     lv, nlv, classes = explore_leaves(rng, 40 if quick else 400)
-    for f, msg in lv:
+    for f, msg in lv + sharing_and_callable_scenarios():
       v.mismatch(f, {'message': msg})
     # positional-only / *args / keyword-only / **kwargs argument stores (FdlStore states) through JSON
     from harness import storecodec  # pylint: disable=g-import-not-at-top
